@@ -229,39 +229,47 @@ def genericValue (d : Option Default) : Except String (Option Val) :=
     if s.isEmpty then .error "raises:IndexError" else .ok (some (.expr s))
   | some d => .ok (some (.c (setValue d.raw)))
 
+/-- the `if "default" in _param:` block of `param2ast`: the type the rest of the function sees -/
+def retype (d : Option Const) (typ : Option TExpr) : Except String (Option TExpr) :=
+  match d, typ with
+  | some (.str s), none =>
+    if contains s ['['] then .ok none
+    else if s == noneStr then .ok (some (TExpr.sub (.name sOptional) (.name sAny)))
+    else .ok (some (.name sStr))
+  | some _, none => .error "raises:TypeError"                 -- `iter(())("[")` on a non-container default
+  | some _, some (.name i) =>
+    if i == sStrCap then .ok (some (.name sStr))
+    else if astConstNames.contains i then .ok (some (.name sObject))
+    else .ok typ
+  | _, t => .ok t
+
+/-- the default handed to `get_default_val` in the `needs_quoting` branch -/
+def quotedDefault (d : Option Const) : Option Const :=
+  match d with
+  | none => none
+  | some x => if x == .str noneStr then some x else some (quoteC x)
+
+/-- `param2ast` once the type is known to be present -/
+def param2astTyped (name : Str) (t : TExpr) (dflt : Option Default) : Except String ClassStmt :=
+  let d := dflt.map Default.raw
+  if needsQuoting t then .ok (.annAssign name t (getDefaultVal (quotedDefault d)))
+  else if (t.simpleName).isSome then .ok (.annAssign name t (getDefaultVal d))
+  else if t.isName sDict then
+    match dflt with
+    | none => .ok (.annAssign name (.name sDict) (some (.expr ['{','}'])))
+    | some _ => .error "unsupported: dict with default"
+  else
+    match genericValue dflt with
+    | .error e => .error e
+    | .ok v => .ok (.annAssign name t v)
+
 /-- `param2ast((name, _param))` -/
-def param2ast (p : Param) : Except String ClassStmt := do
+def param2ast (p : Param) : Except String ClassStmt :=
   let d := p.default.map Default.raw
-  -- the `if "default" in _param:` block (re-typing)
-  let typ ← match d, p.typ with
-    | some (.str s), none =>
-      if contains s ['['] then pure none
-      else if s == noneStr then pure (some (TExpr.sub (.name sOptional) (.name sAny)))
-      else pure (some (.name sStr))
-    | some _, none => throw "raises:TypeError"                 -- `iter(())("[")` on a non-container default
-    | some _, some (.name i) =>
-      if i == sStrCap then pure (some (.name sStr))
-      else if astConstNames.contains i then pure (some (.name sObject))
-      else pure p.typ
-    | _, t => pure t
-  match typ with
-  | none =>
-    -- plain `Assign`
-    return .assign p.name ((getDefaultVal d).getD (.c .none))
-  | some t =>
-    if needsQuoting t then
-      let d' := match d with
-        | none => none
-        | some x => if x == .str noneStr then some x else some (quoteC x)
-      return .annAssign p.name t (getDefaultVal d')
-    else if (t.simpleName).isSome then
-      return .annAssign p.name t (getDefaultVal d)
-    else if t.isName sDict then
-      match p.default with
-      | none => return .annAssign p.name (.name sDict) (some (.expr ['{','}']))
-      | some _ => throw "unsupported: dict with default"
-    else
-      return .annAssign p.name t (← genericValue p.default)
+  match retype d p.typ with
+  | .error e => .error e
+  | .ok none => .ok (.assign p.name ((getDefaultVal d).getD (.c .none)))      -- plain `Assign`
+  | .ok (some t) => param2astTyped p.name t p.default
 
 structure ClassRec where
   name : Str
@@ -430,19 +438,28 @@ deriving Repr, Inhabited, DecidableEq
 
 def isTruthy (o : Option Str) : Bool := match o with | some s => !s.isEmpty | none => false
 
-/-- `param2argparse_param((name, _param), word_wrap, emit_default_doc)`; `help` is the text before `fill` -/
-def param2argparse (p : Param) : Except String AddArg := do
-  let required0 := p.default.isSome                     -- `_param.get("default") is not None`
-  let r := resolveArg p.name p.typ required0
-  let (doc, docDefault) ← extractDefault p.doc
-  let inf := infer r.action (match p.default with | some d => some d | none => docDefault) r.typ
-  let required := if inf.default.isNone && p.default == some .none then false else r.required
+/-- `param2argparse_param` after `_resolve_arg` (result `r`) and `extract_default` (result `(doc, _default)`);
+    `help` is the text before `fill` -/
+def argparseFinish (name : Str) (r : Resolved) (dflt : Option Default) (doc : Str) (docDefault : Option Default) : AddArg :=
+  let inf := infer r.action (match dflt with | some d => some d | none => docDefault) r.typ
+  let required := if inf.default.isNone && dflt == some .none then false else r.required
   let action := if isTruthy inf.action then inf.action else r.action
   let typ := match inf.typ with | some t => some t | none => r.typ
   let required := if typ == some sPickleLoads then false else required
   let typ := if typ == some sStr && action.isNone then none else typ
-  return { flag := '-' :: '-' :: p.name, type := typ, choices := r.choices.map (·.map setValue), action,
-           help := if doc.isEmpty then none else some doc, required, default := inf.default.map setValue }
+  { flag := '-' :: '-' :: name, type := typ, choices := r.choices.map (·.map setValue), action,
+    help := if doc.isEmpty then none else some doc, required, default := inf.default.map setValue }
+
+/-- `param2argparse_param((name, _param), …)` once `extract_default` has split the prose into `(doc, _default)`;
+    the initial `required` is `_param.get("default") is not None` -/
+def argparseCore (p : Param) (doc : Str) (docDefault : Option Default) : AddArg :=
+  argparseFinish p.name (resolveArg p.name p.typ p.default.isSome) p.default doc docDefault
+
+/-- `param2argparse_param((name, _param), word_wrap, emit_default_doc)` -/
+def param2argparse (p : Param) : Except String AddArg :=
+  match extractDefault p.doc with
+  | .error e => .error e
+  | .ok (doc, docDefault) => .ok (argparseCore p doc docDefault)
 
 /-- `cdd.argparse_function.emit.argparse_function`: the `add_argument` calls, in body order -/
 def emitArgparse (ir : IR) : Except String (List AddArg) := mapE param2argparse ir.params
@@ -541,12 +558,26 @@ def convert (c : Conv) (t : Tok) : Option Const :=
   | .float => t.asFloat.map .float
   | .bool => some (.bool (!t.text.isEmpty))
 
-/-- Python `==` between the constants that can meet in a `choices` test (`bool` is an `int`; a `float` is only
-    compared with floats, by `repr`) -/
+/-- canonical decimal integer spelling `-?[0-9]+` -/
+def parseNat (s : Str) : Option Nat :=
+  if s.isEmpty || !s.all isAsciiDigit then none else some (s.foldl (fun n c => 10 * n + (c.toNat - '0'.toNat)) 0)
+def parseIntLit (s : Str) : Option Int :=
+  match s with
+  | '-' :: r => (parseNat r).map (fun n => -(n : Int))
+  | s => (parseNat s).map (fun n => (n : Int))
+
+/-- the integer a constant is numerically equal to, if any (`bool` is an `int`; a float `repr` of the form `n.0`) -/
+def Const.asInteger : Const → Option Int
+  | .int i => some i
+  | .bool true => some 1
+  | .bool false => some 0
+  | .float r => if endsWith r ['.', '0'] then parseIntLit (r.take (r.length - 2)) else Option.none
+  | _ => Option.none
+
+/-- Python `==` between the constants that can meet in a `choices` test: numerically for int / bool / integral
+    floats, otherwise equal constants (floats by `repr`) -/
 def pyEq (a b : Const) : Bool :=
-  let num : Const → Option Int := fun c => match c with
-    | .int i => some i | .bool true => some 1 | .bool false => some 0 | _ => none
-  match num a, num b with
+  match a.asInteger, b.asInteger with
   | some x, some y => x == y
   | _, _ => a == b
 
@@ -560,13 +591,6 @@ def convertChecked (a : Action) (t : Tok) : Option Const :=
 
 def acceptsTok (a : Action) (t : Tok) : Bool := (convertChecked a t).isSome
 
-/-- canonical decimal integer spelling `-?[0-9]+` -/
-def parseNat (s : Str) : Option Nat :=
-  if s.isEmpty || !s.all isAsciiDigit then none else some (s.foldl (fun n c => 10 * n + (c.toNat - '0'.toNat)) 0)
-def parseIntLit (s : Str) : Option Int :=
-  match s with
-  | '-' :: r => (parseNat r).map (fun n => -(n : Int))
-  | s => (parseNat s).map (fun n => (n : Int))
 /-- spelling `-?[0-9]+.[0-9]+` (already a `repr`) or an integer spelling (`float('3')` is `3.0`) -/
 def parseFloatLit (s : Str) : Option Str :=
   let body := match s with | '-' :: r => r | r => r
